@@ -19,7 +19,7 @@ OBVIOUS_REDIRECTS_RE = re.compile(
 # NOTE: the hostname is case-insensitive and can be followed by a port
 YOUTUBE_REDIRECT_RE = re.compile(r"youtube\.com(?::\d+)?/redirect\?", re.I)
 REDIRECTION_DOMAINS_RE = re.compile(
-    r"(?:\.ampproject\.org/[cv]/(?:s/)?|bc\.marfeelcache\.com/amp/|bc\.marfeel\.com/)",
+    r"(?:\.ampproject\.org(?::\d+)?/[cv]/(?:s/)?|bc\.marfeelcache\.com(?::\d+)?/amp/|bc\.marfeel\.com(?::\d+)?/)",
     re.I,
 )
 
